@@ -94,6 +94,10 @@ impl<'a> Chk<'a> {
         }
         // an exact-in amount is the user's own choice only when the pool consumes all of its fee-reduced value
         let specified = user_specified.map(|s| s as i128 == mv.sent && g(self.v.pre, mint, self.epoch, s) as u128 == need).unwrap_or(false);
+        if !specified && mv.sent > 0 && need == 0 {
+            // nothing is needed: the smallest amount that covers it is nothing
+            out.push(viol("requested_amount_not_smallest", self.idx, format!("{} {}: requested {} from the user although the pool needs nothing of this token (transfer fee withheld {})", self.name, what, mv.sent, mv.withheld)));
+        }
         if !specified && mv.sent > 0 && need > 0 {
             let below = g(self.v.pre, mint, self.epoch, mv.sent as u64 - 1) as u128;
             if below >= need {
